@@ -47,10 +47,17 @@ fn main() {
     vh::infra::watchdog::start(id, tier);
     let code = dispatch!(id, mode, tier, seed, third;
         "C01" => vh::props::c01::C01,
+        "C02" => vh::props::c02::C02,
         "C04" => vh::props::c04::C04,
         "C06" => vh::props::c06::C06,
         "C07" => vh::props::c07::C07,
+        "C10" => vh::props::c10::C10,
+        "C11" => vh::props::c11::C11,
         "C12" => vh::props::c12::C12,
+        "C16" => vh::props::c16::C16,
+        "C18" => vh::props::c18::C18,
+        "C19" => vh::props::c19::C19,
+        "C20" => vh::props::c20::C20,
     );
     std::process::exit(code);
 }
